@@ -283,7 +283,16 @@ def quiet(target: Target):
         target.rec.active = saved
 
 
-SIB_VARIANTS = ("array+group", "array", "group", "nested", "attrs")
+SIB_VARIANTS = ("array+group", "array", "group", "nested", "attrs", "lookalike-prefix", "lookalike-mixed")
+# foreign members / root attributes whose names share a prefix, suffix or substring with geff's own
+# members (`nodes`, `edges`, `props`, `ids`) and metadata key (`geff`): (name, "array" | "group")
+LOOKALIKE = {
+    "lookalike-prefix": ([("nodes_raw", "array"), ("nodesets", "group"), ("nodes.bak", "array"), ("edges_v1", "array"),
+                          ("edges.old", "group")], {"geff_old": {"v": 1}, "geffs": [1, 2]}),
+    "lookalike-mixed": ([("Nodes", "group"), ("xnodes", "array"), ("node", "array"), ("edge", "group"), ("props", "array"),
+                         ("ids", "array"), ("geff", "group"), ("geff_backup", "array"), (".nodes", "array"),
+                         ("nodes ", "array")], {"Geff": "x", "geff_old": 3}),
+}
 
 
 def add_siblings(target: Target, fmt: int, variant=True):
@@ -306,7 +315,22 @@ def add_siblings(target: Target, fmt: int, variant=True):
             g = r.require_group("pyramid/s0")
             g["img"] = np.arange(6, dtype="uint8").reshape(2, 3)
             r["pyramid"]["s1"] = np.arange(2, dtype="uint8")
-        if variant != "group":
+        if variant in LOOKALIKE:
+            members, attrs = LOOKALIKE[variant]
+            for i, (name, what) in enumerate(members):
+                try:
+                    if what == "array":
+                        r[name] = np.arange(3 + i % 2, dtype="int16") + i
+                    else:
+                        g = r.require_group(name)
+                        g.attrs["note"] = name
+                        if i % 2 == 0:
+                            g["inner"] = np.arange(2, dtype="uint8")
+                except Exception:  # noqa: BLE001  (a name zarr does not allow is simply not used)
+                    pass
+            for k, v in attrs.items():
+                r.attrs[k] = v
+        elif variant != "group":
             r.attrs["foreign"] = {"a": 1}
 
 
